@@ -264,8 +264,11 @@ def h_list(first: int, trailing: bool, present: bool, sep: int, shard=None) -> N
         if first == -1:
             _run_list(parser, opts, [], trailing, present, SEPS[sep])
             return
+        from vf.xh import sweep_should_stop
         for n in range(0, n_max):
             for rest in itertools.product(range(len(POOL)), repeat=n):
+                if sweep_should_stop():
+                    return
                 items = [POOL[first]] + [POOL[r] for r in rest]
                 if not opts["delimiter"] and not opts["brackets"]:
                     pass
@@ -291,8 +294,11 @@ def h_map(first: int, trailing: bool, present: bool, sep: int, shard=None) -> No
         if first == -1:
             _run_map(parser, opts, [], trailing, present, SEPS[sep])
             return
+        from vf.xh import sweep_should_stop
         for n in range(0, n_max):
             for rest in itertools.product(range(len(entries)), repeat=n):
+                if sweep_should_stop():
+                    return
                 pairs = [entries[first]] + [entries[r] for r in rest]
                 _run_map(parser, opts, pairs, trailing, True, SEPS[sep])
 
